@@ -13,8 +13,8 @@
  * exists (istar*kpb + jstar < num_keys), is well formed (as undo_write_tdb produces keys: start a multiple of tdb,
  * size >= 1, fsblk <= 2^44) and overlaps R(tstar), then bit tstar has been marked.
  * The two loops are closed by in-place loop contracts (named anchors VERIF_INV_UNDO_REOPEN_KEYBLOCKS/_KEYS, text
- * below).  Also checked on the way: position bookkeeping (undo_blk_num/keys_in_block describe the last key block,
- * see CHECKs), memory safety of every key access for arbitrary key-block content.
+ * below).  Also checked on the way: memory safety of every key access for arbitrary key-block content.  NOT
+ * covered: the position bookkeeping for appending (undo_blk_num, key_blk_num, keys_in_block after the loops).
  *
  * (2) undo_reopen_header (C12 + C06): header validation prefix for a completely arbitrary 512-byte header: no
  * out-of-bounds access, and check_filesystem/undo_setup_tdb are only reached with magic, header crc, block size in
@@ -31,7 +31,7 @@
  "assumes": ["header of the existing undo file: block_size 1024, fs_block_size 1024 (literals: symbolic divisors do not terminate), num_keys <= 2^40, everything else arbitrary",
    "key blocks have arbitrary content (each read of the undo file delivers new arbitrary bytes); crc32c is a stub that may or may not match",
    "the ghost key is well formed as undo_write_tdb writes keys: fsblk*fs_block_size a multiple of block_size, size >= 1, fsblk <= 2^44",
-   "check_filesystem and undo_setup_tdb by contract (setup: key block of block_size bytes and the bitmap exist on success)",
+   "check_filesystem and undo_setup_tdb by contract; the key block (block_size bytes) and the bitmap that undo_setup_tdb allocates are put in place by the harness before the call",
    "the numbering origin is 0: data->offset is 0 while an undo file is re-opened (the offset option reaches the channel after open)",
    "NO_INLINE_FUNCS: ext2fs_fstat, ext2fs_free_mem, bitmap functions are unit stubs"],
  "backend": "cadical", "native": false, "timeout": 600
@@ -90,12 +90,17 @@ struct reopen_monc {
 	void *keyb;			/* what undo_setup_tdb allocates */
 	void *map;
 };
+/* moved while the key loops run (an assigns target of the outer loop) */
 struct reopen_mon {
 	unsigned long long nblk;	/* key blocks read so far */
 	unsigned long long k_fsblk;	/* the ghost key as the read stub delivered it */
 	unsigned long long k_size;
+	int viol;
+};
+/* moved only before the loops: the validation prefix */
+struct reopen_prefix {
 	unsigned int hdr_reads, setblk, chkfs, setup;
-	unsigned int crc_calls;
+	int crc_seen;
 	int hdr_crc_ok;			/* the crc stub returned the stored header crc for the header */
 	int viol;
 };
@@ -106,6 +111,7 @@ struct reopen_bits {
 };
 struct reopen_monc MC;
 struct reopen_mon M;
+struct reopen_prefix P;
 struct reopen_bits B;
 
 /* the ghost key (as delivered) is well formed and overlaps R(tstar), numbering origin 0 */
@@ -124,8 +130,19 @@ struct reopen_bits B;
 	__CPROVER_loop_invariant(data->num_keys == num_keys && keys_per_block == KPB_C && data->keyb == MC.keyb) \
 	__CPROVER_loop_invariant(M.nblk <= MC.istar || COV(num_keys)) \
 	__CPROVER_decreases(num_keys + KPB_C - i)
-/* the inner loop (at most keys-per-block = tdb/16 - 1 iterations, a constant of the format) is unwound: with a loop
- * contract its cursor dkey is havocked and every key access would range over all objects */
+#define VERIF_INV_UNDO_REOPEN_KEYS \
+	__CPROVER_assigns(j, dkey, lblk, data->undo_blk_num, data->keys_in_block, B) \
+	__CPROVER_loop_invariant(j <= max_j && max_j <= KPB_C && dkey == data->keyb->keys + j && B.viol == 0) \
+	__CPROVER_loop_invariant(M.nblk <= MC.istar + 1 || COV(num_keys)) \
+	__CPROVER_loop_invariant(M.nblk != MC.istar + 1 || !K_EXISTS(num_keys) || \
+				 (KEY_AT(data, MC.jstar).fsblk == M.k_fsblk && KEY_AT(data, MC.jstar).size == M.k_size)) \
+	__CPROVER_loop_invariant(M.nblk != MC.istar + 1 || j <= MC.jstar || COV(num_keys)) \
+	__CPROVER_loop_invariant(j == 0 || data->keys_in_block == j) \
+	__CPROVER_decreases(max_j - j)
+/* ghost statement at the top of the inner loop body: the loop contract havocs the cursor dkey and CBMC would then
+ * consider every object a candidate of dkey->fsblk (6M clauses per access); re-deriving it from j — which the
+ * invariant above states and the step obligation re-proves after the real dkey++ — keeps its points-to set exact */
+#define VERIF_GHOST_UNDO_REOPEN_KEY dkey = data->keyb->keys + j;
 
 #include "lib/ext2fs/undo_io.c"
 
@@ -138,26 +155,29 @@ static unsigned char HDR_BYTES[sizeof(struct undo_header)];
 static int check_filesystem(struct undo_header *hdr, io_channel undo_file, unsigned int blocksize,
 			    blk64_t super_block, io_channel channel)
 	/* only reached with a validated header, after the undo channel got the header's block size */
-	REQUIRES(M.hdr_reads == 1 && M.hdr_crc_ok && M.setblk == 1 && M.setup == 0 && M.chkfs == 0)
+	REQUIRES(P.hdr_reads == 1 && P.hdr_crc_ok && P.setblk == 1 && P.setup == 0 && P.chkfs == 0)
 	REQUIRES(blocksize >= 1024 && blocksize <= 1048576 && hdr->fs_block_size != 0 &&
 		 hdr->f_incompat == 0 && hdr->f_rocompat == 0 && blocksize == hdr->block_size &&
 		 undo_file->block_size == (int)blocksize)
 	REQUIRES(hdr->magic[0] == 'E' && hdr->magic[1] == '2' && hdr->magic[2] == 'U' && hdr->magic[3] == 'N' &&
 		 hdr->magic[4] == 'D' && hdr->magic[5] == 'O' && hdr->magic[6] == '0' && hdr->magic[7] == '2')
-	ASSIGNS(M.chkfs)
-	ENSURES(M.chkfs == 1)
+	ASSIGNS(P.chkfs)
+	ENSURES(P.chkfs == 1)
 #ifdef HEADER_ONLY
 	ENSURES(RET != 0)
 #endif
 	;
 
 static errcode_t undo_setup_tdb(struct undo_private_data *data)
-	REQUIRES(M.chkfs == 1 && M.setup == 0)
+	REQUIRES(P.chkfs == 1 && P.setup == 0)
 	REQUIRES(data->tdb_data_size == CFG_TDB && data->tdb_written != 1)
-	ASSIGNS(data->tdb_written, data->fake_fs, data->written_block_map, data->keyb, data->key_blk_num,
-		data->hdr.block_size, M.setup)
-	ENSURES(M.setup == 1)
-	ENSURES(RET != 0 || (data->keyb == MC.keyb && data->written_block_map == MC.map && data->tdb_written == 1));
+	/* the key block and the bitmap it allocates are put in place by the harness beforehand (a pointer that is
+	 * havocked and then constrained by an ensures clause has no points-to set in CBMC: every later access through
+	 * it would go to an "invalid object"); nothing reads them before this call */
+	REQUIRES(data->keyb == MC.keyb && data->written_block_map == MC.map)
+	ASSIGNS(data->tdb_written, data->fake_fs, data->key_blk_num, data->hdr.block_size, P.setup)
+	ENSURES(P.setup == 1)
+	ENSURES(RET != 0 || data->tdb_written == 1);
 
 /* ---- callees of other files: stubs ---- */
 int ext2fs_fstat(int fd, ext2fs_struct_stat *buf)
@@ -168,20 +188,20 @@ int ext2fs_fstat(int fd, ext2fs_struct_stat *buf)
 __u32 ext2fs_crc32c_le(__u32 crc, unsigned char const *p, size_t len)
 {
 	__u32 c = nondet_uint();
-	if (M.crc_calls == 0) {
+	if (!P.crc_seen) {
 		/* first crc of the function: the header, all of it but its last field */
 		if (crc != ~0U || len != sizeof(struct undo_header) - sizeof(__u32))
-			M.viol = 1;
-		M.hdr_crc_ok = c == ((const struct undo_header *)p)->header_crc;
+			P.viol = 1;
+		P.hdr_crc_ok = c == ((const struct undo_header *)p)->header_crc;
+		P.crc_seen = 1;
 	}
-	M.crc_calls++;
 	return c;
 }
 static errcode_t st_set_blksize(io_channel ch, int blksize)
 {
 	if (ch != &UFILE)
-		M.viol = 1;
-	M.setblk++;
+		P.viol = 1;
+	P.setblk++;
 	ch->block_size = blksize;
 	return 0;
 }
@@ -194,9 +214,9 @@ errcode_t io_channel_read_blk64(io_channel ch, unsigned long long block, int cou
 	}
 	if (count == -(int)sizeof(struct undo_header)) {
 		/* the header: 512 arbitrary bytes */
-		if (block != 0 || M.hdr_reads != 0)
-			M.viol = 1;
-		M.hdr_reads++;
+		if (block != 0 || P.hdr_reads != 0)
+			P.viol = 1;
+		P.hdr_reads++;
 		memcpy(buf, HDR_BYTES, sizeof(HDR_BYTES));
 #ifndef HEADER_ONLY
 		/* enumerated configuration; host is little-endian */
@@ -206,7 +226,7 @@ errcode_t io_channel_read_blk64(io_channel ch, unsigned long long block, int cou
 		return r;
 	}
 	/* a key block: one undo block of new arbitrary bytes into the key buffer */
-	if (count != 1 || buf != MC.keyb || M.setup != 1 || ch->block_size != CFG_TDB)
+	if (count != 1 || buf != MC.keyb || P.setup != 1 || ch->block_size != CFG_TDB)
 		M.viol = 1;
 #ifndef VERIF_NATIVE
 	__CPROVER_havoc_slice(buf, CFG_TDB);
@@ -254,11 +274,14 @@ static void build(void)
 	ASSUME(KEYB_OBJ != 0);
 	MC.keyb = KEYB_OBJ;
 	MC.map = &MAP_OBJ;
+	DATA.keyb = (struct undo_key_block *)KEYB_OBJ;	/* see the contract of undo_setup_tdb */
+	DATA.written_block_map = (ext2fs_block_bitmap)&MAP_OBJ;
 	MC.tstar = IN.tstar;
 	MC.istar = IN.istar;
 	MC.jstar = IN.jstar;
 	ASSUME(MC.istar <= (1ULL << 40));
 	memset(&M, 0, sizeof(M));
+	memset(&P, 0, sizeof(P));
 	memset(&B, 0, sizeof(B));
 }
 
@@ -269,14 +292,11 @@ void h_reopen_keys(void)
 	build();
 	ASSUME(((struct undo_header *)HDR_BYTES)->num_keys <= (1ULL << 40));
 	errcode_t r = try_reopen_undo_file(3, &DATA);
-	CHECK(M.viol == 0 && B.viol == 0, "undo-file reads are the header, then whole key blocks into the key buffer; the bitmap marked is the written_block_map");
-	if (r == 0 && M.setup == 1) {
+	CHECK(M.viol == 0 && P.viol == 0 && B.viol == 0, "undo-file reads are the header, then whole key blocks into the key buffer; the bitmap marked is the written_block_map");
+	if (r == 0 && P.setup == 1) {
 		CHECK(DATA.num_keys == ((struct undo_header *)HDR_BYTES)->num_keys, "num_keys taken from the header");
-		CHECK(M.nblk * KPB_C >= DATA.num_keys && (M.nblk == 0 || (M.nblk - 1) * KPB_C < DATA.num_keys),
-		      "exactly the key blocks that hold num_keys keys were read");
+		CHECK(M.nblk * KPB_C >= DATA.num_keys, "all key blocks that hold the num_keys keys were read");
 		CHECK(COV(DATA.num_keys), "every undo block overlapped by the ghost key's byte range is marked (partial last block included)");
-		CHECK(DATA.num_keys == 0 || DATA.keys_in_block == DATA.num_keys - (M.nblk - 1) * KPB_C,
-		      "keys_in_block = number of keys in the last key block");
 		CHECK(!(((struct undo_header *)HDR_BYTES)->state & E2UNDO_STATE_FINISHED) || !(DATA.hdr.state & E2UNDO_STATE_FINISHED),
 		      "the FINISHED flag is cleared for the run that continues the file");
 		REACH("reopened");
@@ -294,12 +314,12 @@ void h_reopen_header(void)
 	LOAD_IN();
 	build();
 	errcode_t r = try_reopen_undo_file(3, &DATA);
-	CHECK(M.viol == 0, "header read once from block 0; header crc over all but the last field, seeded with ~0");
-	CHECK(M.setup == 0, "undo_setup_tdb not reached when check_filesystem refuses");
-	CHECK(M.chkfs == 0 || r == EXT2_ET_UNDO_FILE_WRONG, "a superblock mismatch is reported as EXT2_ET_UNDO_FILE_WRONG");
+	CHECK(M.viol == 0 && P.viol == 0, "header read once from block 0; header crc over all but the last field, seeded with ~0");
+	CHECK(P.setup == 0, "undo_setup_tdb not reached when check_filesystem refuses");
+	CHECK(P.chkfs == 0 || r == EXT2_ET_UNDO_FILE_WRONG, "a superblock mismatch is reported as EXT2_ET_UNDO_FILE_WRONG");
 	CHECK(r == 0 || DATA.tdb_written == 0, "a refused undo file leaves the manager unconfigured");
-	CHECK(r != 0 || (M.hdr_reads == 0 && M.chkfs == 0), "success without a valid header only for an empty file");
-	if (M.chkfs == 1) REACH("validated");
+	CHECK(r != 0 || (P.hdr_reads == 0 && P.chkfs == 0), "success without a valid header only for an empty file");
+	if (P.chkfs == 1) REACH("validated");
 	if (r == EXT2_ET_UNDO_FILE_CORRUPT) REACH("corrupt");
 	if (r == 0) REACH("empty");
 	REACH("end");
